@@ -90,9 +90,11 @@ theorem multiple_fixed (op : Op) (s span : Int) (hp : 0 < span) (hp2 : span ≤ 
     have := RR.ok.inj (Res.ok.inj h)
     omega
 
-/-- the result is a multiple of the span, and applying the operation to it again changes nothing.
-(At the date-time level the result may have left the `i64` window — e.g. rounding up near
-2262-04-11T23:47:16 — and the second call then reports `TimestampExceedsLimit`: `datetime_spec`.) -/
+/-- on integers (no 64-bit window: `run` takes any `Int` as the stamp): the result is a multiple of
+the span, and applying the operation to it again changes nothing.  On the values the second call may
+find the result outside the `i64` window (rounding up near 2262-04-11T23:47:16) and then reports
+`TimestampExceedsLimit`: the exact statement is the last conjunct of `naive_result_properties` /
+`zoned_result_properties`. -/
 theorem idempotent (op : Op) (s span d : Int) (hp : 0 < span) (hp2 : span ≤ 9223372036854775807)
     (h : run op (some s) (some span) = .ok (.ok d)) :
     span ∣ (s + d) ∧ run op (some (s + d)) (some span) = .ok (.ok 0) := by
